@@ -224,6 +224,14 @@ def isDouble (w : World) (i j : Nat) : Bool :=
         (2 * p.intensity).toBits == q.intensity.toBits && (2 * p.intensity).isFinite) x.peaks y.peaks) si sj
   | _, _ => false
 
+/-- the same precursor keys are reported -/
+def sameKeys (a b : List Row) : Bool :=
+  a.length == b.length && (List.zip a b).all (fun p => p.1.pep == p.2.pep && p.1.charge == p.2.charge && p.1.decoy == p.2.decoy)
+
+/-- a total key on spectra, to compare two spectrum lists as multisets -/
+def spectrumKey (s : Spectrum Float32) : List Nat :=
+  s.fileId :: s.scanStart.toBits.toNat :: s.peaks.flatMap (fun p => [p.mass.toBits.toNat, p.intensity.toBits.toNat, p.mobility.toBits.toNat])
+
 /-- (b) a file with exactly twice the intensities gets exactly twice the area (single worker) /
     twice within the summation bound (several workers) -/
 def doublingOk (w : World) (rows : List Row) (exact : Bool) : Option String :=
@@ -370,7 +378,10 @@ def handle (op : String) (args impl : List String) : Option Reply :=
           | none =>
             match irs with
             | [] => "ok"
-            | r0 :: rest => if rest.all (fun r => rowsClose r0 r) then "ok" else "bad:thread_dependent"
+            | r0 :: rest =>
+              -- presence first: the same precursors must be reported whatever the pool size
+              if !(rest.all (fun r => sameKeys r0 r)) then "bad:thread_dependent_presence"
+              else if rest.all (fun r => rowsClose r0 r) then "ok" else "bad:thread_dependent"
         pure { model := model, agree := agree, spec := spec }
   | "lfq2" => do
     let (kind, perm, bin, a, b) ← run (do
@@ -399,6 +410,16 @@ def handle (op : String) (args impl : List String) : Option Reply :=
                                 (relevantPart env32 b.withMob ranges b.aligns b.spectra)
             if !related then "na"
             else if rowsExact ia ib then "ok" else "bad:outside_window_changed"
+          else if kind == 2 then
+            -- (e') B is A with the MS1 spectra listed in another order (one of the schedules the statement quantifies
+            -- over, made deterministic: both run on a single worker). Same precursors, areas within the summation bound.
+            let related :=
+              listEq featEq a.feats b.feats && listEq alignEq a.aligns b.aligns && a.withMob == b.withMob &&
+              a.zLo == b.zLo && a.zHi == b.zHi &&
+              (a.spectra.map spectrumKey).mergeSort lexLe == (b.spectra.map spectrumKey).mergeSort lexLe
+            if !related then "na"
+            else if !sameKeys ia ib then "bad:order_dependent_presence"
+            else if rowsClose ia ib then "ok" else "bad:order_dependent"
           else
             -- (c) B is A with file i renamed perm[i]
             let n := a.aligns.length
